@@ -5,6 +5,7 @@ package main
 
 import (
 	"fmt"
+	"math"
 	"os"
 	"strings"
 	"time"
@@ -53,7 +54,18 @@ func genRow(r *lib.Rng, layout []string, around int64) []octosql.Value {
 }
 
 // genScript: mostly well-timed streams; mode 1 allows late records, mode 2 also watermarks going backwards.
+// Event times and watermarks are small offsets from a base instant: the Unix epoch, or one of the two ends
+// of the int64 nanosecond range (1677-09-21 / 2262-04-11, = WatermarkMaxValue), so that a script straddles
+// the instant where UnixNano() wraps around.
+var baseEpoch = time.Unix(0, 0).UTC()
+var baseMinNano = time.Unix(0, math.MinInt64).UTC()
+
 func genScript(r *lib.Rng, layout []string, mode int) []lib.Event {
+	return genScriptAt(r, layout, mode, baseEpoch)
+}
+
+func genScriptAt(r *lib.Rng, layout []string, mode int, base time.Time) []lib.Event {
+	at := func(n int64) time.Time { return base.Add(time.Duration(n)) }
 	n := r.Intn(15)
 	var evs []lib.Event
 	haveWM := false
@@ -67,7 +79,7 @@ func genScript(r *lib.Rng, layout []string, mode int) []lib.Event {
 				}
 			}
 			haveWM = true
-			evs = append(evs, lib.Event{IsWM: true, WM: time.Unix(0, wm).UTC()})
+			evs = append(evs, lib.Event{IsWM: true, WM: at(wm)})
 			continue
 		}
 		var et time.Time
@@ -77,11 +89,11 @@ func genScript(r *lib.Rng, layout []string, mode int) []lib.Event {
 		case r.Chance(1, 60):
 			et = execution.WatermarkMaxValue.Add(time.Duration(r.Intn(3)) - 1) // around the final flush's watermark
 		case mode >= 1 && haveWM && r.Chance(1, 3):
-			et = time.Unix(0, wm-int64(r.Intn(3))).UTC() // late
+			et = at(wm - int64(r.Intn(3))) // late
 		case haveWM:
-			et = time.Unix(0, wm+1+int64(r.Intn(5))).UTC()
+			et = at(wm + 1 + int64(r.Intn(5)))
 		default:
-			et = time.Unix(0, wm+int64(r.Intn(9))-3).UTC()
+			et = at(wm + int64(r.Intn(9)) - 3)
 		}
 		around := wm
 		evs = append(evs, lib.Event{Rec: execution.NewRecord(genRow(r, layout, around), r.Chance(1, 5), et)})
@@ -226,7 +238,7 @@ func main() {
 	cf.Imports = []string{"Buffer"}
 	cf.CaseType = "c18_case"
 	cf.Checks = []lib.Check{{Name: "tie", Kind: "tie", Fn: "c18_tie"}, {Name: "spec", Kind: "spec", Fn: "c18_spec"}}
-	cf.Side.Rule = "watermarked streams of 0..14 events (zero and non-zero event times, equal instants, out-of-order arrival, pre-epoch instants, instants around WatermarkMaxValue; " +
+	cf.Side.Rule = "watermarked streams of 0..14 events (16 per run around the instant where UnixNano() wraps, 1677-09-21; zero and non-zero event times, equal instants, out-of-order arrival, pre-epoch instants, instants around WatermarkMaxValue; " +
 		"mostly well timed, some with late records or watermarks going backwards) through the real EventTimeBuffer alone, through single Filter/Map/Unnest/tumble/max_diff_watermark nodes and " +
 		"through pipelines of 2..3 of them; poll over a source failing after 1..3 rounds, alone and followed by per-record nodes; " +
 		"non-trivial = well-timed source, at least one watermark and three records in the output; distinct by full case text"
@@ -234,6 +246,9 @@ func main() {
 	for i := 0; i < n; i++ {
 		r := rng.Fork()
 		shape := r.Intn(10)
+		if i < 16 {
+			shape = 0 // a fixed family per run: the buffer alone over instants around the lower end of the UnixNano range
+		}
 		var stages []stage
 		var srcCoq string
 		var srcJS interface{}
@@ -268,7 +283,14 @@ func main() {
 			if r.Chance(1, 5) {
 				mode = 1 + r.Intn(2)
 			}
-			script = genScript(r, layout, mode)
+			base := baseEpoch
+			if i < 16 {
+				base = baseMinNano
+			}
+			script = genScriptAt(r, layout, mode, base)
+			if base != baseEpoch {
+				cf.Count("script_around_min_unixnano")
+			}
 			srcWT = wellTimed(script)
 			srcNode = &lib.ScriptSource{Events: script}
 			srcCoq = "SScript " + c18kit.CoqEvents(script)
@@ -377,6 +399,9 @@ func main() {
 		} else {
 			cf.Count("source_script_ill_timed")
 		}
+	}
+	for i, m := 0, f.Cases(1, 5); i < m; i++ {
+		largeBufferCase(rng.Fork(), cf)
 	}
 	for i, m := 0, f.Cases(160, 1600); i < m; i++ {
 		joinCase(rng.Fork(), cf)
